@@ -72,7 +72,9 @@ def run(ctx):
     ctx.stage("model-sensitivity", variant="SharedFiles (library files cached per thread by library name)", tlc_verdict="%s violated (as required)" % r.violation)
     library_dirs(ctx)
     vecs = []
-    for c in ("MCInterp_quick.cfg", "MCInterp_files.cfg" if tier == "quick" else "MCInterp_files_thorough.cfg"):
+    # (the files family with programs of three forms has 1.8 million interleavings: like the syntax family it is sampled by
+    # random walks in the thorough tier; programs of two forms are exhaustive in both tiers)
+    for c in ("MCInterp_quick.cfg", "MCInterp_files.cfg"):
         r = run_tlc("MCInterp.tla", c, ctx.dir, workers=12, timeout=3000, xmx="12g")
         require_clean(r, c)
         ctx.add_tlc(r, c + " (non-interference on every interleaving)")
@@ -80,11 +82,12 @@ def run(ctx):
     if tier != "quick":
         # programs of three forms: about four million interleavings - sampled by random walks of the model
         seen = {canon(v) for v in vecs}
-        for k in range(4):
-            r = run_tlc("MCInterp.tla", "MCInterp_thorough.cfg", ctx.dir, tag="MCInterp_thorough_sim%d" % k, workers=1, timeout=3000, xmx="12g",
+        for k in range(8):
+            c = "MCInterp_thorough.cfg" if k < 4 else "MCInterp_files_thorough.cfg"
+            r = run_tlc("MCInterp.tla", c, ctx.dir, tag=c[:-4] + "_sim%d" % k, workers=1, timeout=3000, xmx="12g",
                         simulate="num=8000", depth=8, seed=ctx.seed * 10 + k)
-            require_clean(r, "MCInterp_thorough simulate")
-            ctx.add_tlc(r, "MCInterp_thorough.cfg (random walks)")
+            require_clean(r, c + " simulate")
+            ctx.add_tlc(r, c + " (random walks)")
             for v in r.vecs:
                 if canon(v) not in seen:
                     seen.add(canon(v)); vecs.append(v)
@@ -195,7 +198,7 @@ def run(ctx):
     ctx.stage("validate", program_pairs=len(pairs), instance_traces=len(progs), mismatches=len(mism))
     ctx.assumptions += ["both instances live on one thread (as the property says); a user-defined macro is modelled abstractly: (kw ARG) rewrites to (list 'k) for the definition k of that instance"]
     return ctx.finish(rule="replay: every interleaving of two programs of <= 2 forms (define, set!, read, define-syntax of m and of cond, uses of both, a failing form) over two instances, "
-                           "with a third instance created and used at every point; validate: random program pairs from the C01/C05/C03 generators with macro definitions under random interleavings, "
+                           "in two families (syntax tables; library files, incl. a stateful library with the same text in both directories), with fresh instances probing at every point; thorough adds random walks of the model over programs of 3 forms in both families; validate: random program pairs from the C01/C05/C03 generators with macro definitions under random interleavings, "
                            "each instance's results validated by MachineTrace.tla against the machine running that program alone; non-trivial = distinct interleaving / program")
 
 
